@@ -6,6 +6,7 @@ package main
 import (
 	"fmt"
 	"go/types"
+	"regexp"
 	"strings"
 )
 
@@ -36,8 +37,21 @@ func isOpaque(t types.Type) bool {
 	return isStruct
 }
 
+var typeKeyCache = map[types.Type]string{}
+var reByte = regexp.MustCompile(`\bbyte\b`)
+var reRune = regexp.MustCompile(`\brune\b`)
+var reAny = regexp.MustCompile(`\bany\b`)
+
 func typeKey(t types.Type) string {
-	return types.TypeString(t, func(p *types.Package) string { return shortPkg(p.Path()) })
+	if k, ok := typeKeyCache[t]; ok {
+		return k
+	}
+	k := types.TypeString(t, func(p *types.Package) string { return shortPkg(p.Path()) })
+	k = reByte.ReplaceAllString(k, "uint8")
+	k = reRune.ReplaceAllString(k, "int32")
+	k = reAny.ReplaceAllString(k, "interface{}")
+	typeKeyCache[t] = k
+	return k
 }
 
 func shortPkg(path string) string {
